@@ -29,7 +29,14 @@ PARTIAL = ["Q is an isometry and Q R = tensor is the contract of numpy.linalg.qr
            "(canon_gauge_tree); that the recorded tensors are isometries then follows from the QR contract and the "
            "composition lemmas (env_isometry_compose/kron, keep_mode_padding) - this last step is not formalised as one "
            "theorem about a tensor network, it is checked per node by the oracle",
-           "state invariance (value level) is decided per input by the dense oracle"]
+           "state invariance (value level) is PROVED for every run of canonOps / moveOps on a valued network, every tree and "
+           "centre, all dimensions, any commutative semiring, given one factorisation contract A = sum Q.R per QR call "
+           "(canonical_form_value, move_centre_value, canonical_form_value_tree; hypotheses = the per-call QR contracts); per "
+           "input it is decided by the dense oracle and, for integer states, by the Lean model's own exact evaluation of the "
+           "network before the operations against the library's dense state after them",
+           "norm from the centre tensor alone = full norm: proved in index form for two tensors (centre_norm_two) and for any "
+           "sequence of absorptions of isometries (centre_norm_value_partial); that the farthest-first order is such a "
+           "sequence for every tree in canonical form is not formalised"]
 ASSUMPTIONS = ["numpy.linalg.qr contract", "dense contraction by tensordot over labelled legs"]
 
 MODES = ["REDUCED", "FULL", "KEEP"]
@@ -110,6 +117,62 @@ class QRLog:
             TreeTensorNetwork.split_node_qr = self._orig
 
 
+def _model_value_line(ttns, order, limit=20000):
+    """Integer states: the flat network (node tensors, one pair of leg labels per tree edge, free legs = open legs sorted by
+    node) as an `einrec` request - the Lean model evaluates `netValue` (the function `canonical_form_value` /
+    `move_centre_value` are about) on the library's integer tensors.  None when a tensor is not integer or the sum is too
+    large for the model."""
+    from harness import einsum_corr
+    num, dims, leaves = {}, [], []
+    for nid in ttns.nodes:
+        t = np.asarray(ttns.tensors[nid])
+        if not np.issubdtype(t.dtype, np.integer):
+            return None
+        legs = []
+        for lab, d in zip(dense.node_labels(ttns, nid), t.shape):
+            num[(nid, lab)] = len(dims)
+            dims.append(int(d))
+            legs.append(num[(nid, lab)])
+        leaves.append((legs, t.astype(np.int64)))
+    pairs, free, size = [], [], 1
+    for nid in ttns.nodes:
+        for lab in dense.node_labels(ttns, nid):
+            if lab[0] == "e" and lab[3] == nid:             # the leg toward the parent: one pair per edge
+                pairs.append((num[(lab[2], lab)], num[(nid, lab)]))
+                size *= dims[num[(nid, lab)]]
+    for nid in order:
+        for lab in dense.node_labels(ttns, nid):
+            if lab[0] == "o":
+                free.append(num[(nid, lab)])
+                size *= dims[num[(nid, lab)]]
+    if size > limit:
+        return None
+    return einsum_corr.einrec_line(dims, free, pairs, leaves)
+
+
+def _compare(ctx, case, impl, mo):
+    """One model answer against what the implementation did: the QR schedule (exact text) or the dense state (the model's
+    exact evaluation of the integer network BEFORE the operations against the library's contraction AFTER them)."""
+    if isinstance(impl, tuple) and impl[0] == "value":
+        from harness import einsum_corr
+        _, v_after, scale, what = impl
+        tab = einsum_corr.parse_table(mo, "full")
+        if tab is None:
+            ctx.corr_fail(case, f"value: the value-level model rejects the integer network: [{mo[:120]}]")
+            return
+        vm = np.array(tab, dtype=float)
+        if vm.shape != v_after.shape:
+            ctx.corr_fail(case, f"value: model table has {vm.size} entries, the dense state {v_after.size}")
+            return
+        err = float(np.linalg.norm(v_after - vm))
+        if not err <= 1e-10 * max(scale, float(np.linalg.norm(vm))):
+            ctx.corr_fail(case, f"value: state after {what} differs from the Lean model's evaluation of the integer network "
+                                f"before it by {err:.3e} (scale {scale:.3e})")
+        return
+    if mo != impl:
+        ctx.corr_fail(case, f"QR schedule: impl=[{impl}] model=[{mo}]")
+
+
 def run(ctx):
     qlog = QRLog()
     qlog.install()
@@ -128,8 +191,7 @@ def run(ctx):
                 owners.append((c, impl))
         for (c, impl), mo in zip(owners, ctx.lean.batch(lines)):
             ctx.corr_cases += 1
-            if mo != impl:
-                ctx.corr_fail(c, f"QR schedule: impl=[{impl}] model=[{mo}]")
+            _compare(ctx, c, impl, mo)
     finally:
         qlog.uninstall()
 
@@ -141,8 +203,7 @@ def run_case(ctx, case):
         o = _run_impl(ctx, case, qlog)
         if o:
             for (ln, impl), mo in zip(o, ctx.lean.batch([l for l, _ in o])):
-                if mo != impl:
-                    ctx.corr_fail(case, f"QR schedule: impl=[{impl}] model=[{mo}]")
+                _compare(ctx, case, impl, mo)
     finally:
         qlog.uninstall()
 
@@ -341,6 +402,8 @@ def _run_impl(ctx, case, qlog):
     if entry == "ensure_root":
         centre = ttns.root_id
     out = []
+    # value-level correspondence (integer states): the model evaluates the network as it is NOW
+    vline = _model_value_line(ttns, order) if case.get("dtype") == "int" else None
     line = _canon_line(ttns, inv, centre)
     qlog.log.clear()
     try:
@@ -359,6 +422,7 @@ def _run_impl(ctx, case, qlog):
     # expected status per node: True = strict isometry, False = only a (zero-padded) partial isometry
     strict = {nid: case["mode"] != "KEEP" for nid in order}
     shapes_now = shapes0 if case["mode"] == "KEEP" else c06._shape_map(ttns)
+    kinds_done = []
     for mv in range(case["moves"]):
         if probs:
             break
@@ -386,6 +450,7 @@ def _run_impl(ctx, case, qlog):
             elif kind == "move" and x < 0.75 and op_mode_name == "REDUCED":
                 kind = "move_default"
         ctx.tally("operations", kind)
+        kinds_done.append(kind)
         qlog.log.clear()
         if kind == "replace_centre":
             # what a time step does: the centre tensor is replaced (same shape); the other tensors stay isometries,
@@ -457,6 +522,14 @@ def _run_impl(ctx, case, qlog):
     if probs:
         ctx.oracle_fail(case, f"{case['mode']}: " + "; ".join(probs[:4]))
         return None
+    if vline is not None and not any(k == "replace_centre" for k in kinds_done):
+        # canonical_form and every later centre move / re-canonicalisation: the dense state AFTER all of them against the
+        # model's exact value of the integer network BEFORE them (`canonical_form_value`, `move_centre_value`)
+        ctx.tally("model_value", "compared")
+        out.append((vline, ("value", dense.ttns_vector(ttns, order), ref.vscale,
+                            f"canonical_form + {len(kinds_done)} operations")))
+    elif case.get("dtype") == "int":
+        ctx.tally("model_value", "skipped (not integer / too large / centre replaced)")
     return out
 
 
